@@ -336,6 +336,14 @@ void harness(void) {
 		for (size_t i = 0; i < rcount && i < RMAX; i++) expect += (size_t)R[i].dlen + 2;
 		V_ASSERT(calc == expect, "CALC size equals reference lines + CR LF each");
 		uint8_t *out = v_alloc(GCAP);
+#ifdef KF_GEN_OVERRUN	/* finding gen_short_buffer_overrun: ini_buf_gen compares each line with the WHOLE capacity, not with
+			 * what is left; blocked input class: buffer shorter than the total although every single line fits */
+		if (GCAP < calc) {
+			int each_fits = 1;
+			for (size_t i = 0; i < rcount && i < RMAX; i++) if ((size_t)R[i].dlen + 2 > GCAP) each_fits = 0;
+			V_ASSUME(!each_fits);
+		}
+#endif
 		int e = ini_buf_gen(ini, out, GCAP, &got);
 		if (GCAP >= calc) {
 			V_ASSERT(e == 0, "GEN into a buffer of at least the calculated size succeeds");
